@@ -478,7 +478,8 @@ class Background2D:
 
         # mask boxes with too few unmasked pixels
         ngood = np.count_nonzero(~np.isnan(data), axis=axis)
-        box_mask = ngood <= self._good_npixels_threshold
+        box_mask = np.logical_or(ngood < self._good_npixels_threshold,
+                                 ngood == 0)
 
         if np.ndim(bkg) == 0:
             if box_mask:  # single corner box
@@ -603,7 +604,7 @@ class Background2D:
                 ngood = np.hstack([ngood, col_ngood])
 
         if np.all(np.isnan(bkg)):
-            raise ValueError('All boxes contain <= '
+            raise ValueError('All boxes contain < '
                              f'{self._good_npixels_threshold} good pixels. '
                              'Please check your data or increase '
                              '"exclude_percentile" to allow more boxes to '
